@@ -8,7 +8,7 @@ import copy
 import json
 import random
 
-from statham.serializers import serialize_json
+from statham.serializers import serialize_json, serialize_python
 
 from harness import core, dsl
 from harness.framework import Outcome
@@ -235,7 +235,7 @@ def has_bool_num_confusion(a, b):
     return bool(diffs) and all(diffs)
 
 
-def check_pair(drv, da, db, kind, values, out, stats, built=None, extra=None):
+def check_pair(drv, da, db, kind, values, out, stats, built=None, extra=None, served_first=False):
     try:
         a, b = built if built is not None else (dsl.build(da), dsl.build(db))
     except Exception as exc:  # noqa: BLE001
@@ -244,9 +244,19 @@ def check_pair(drv, da, db, kind, values, out, stats, built=None, extra=None):
     if core.dump_elem(a) != da or core.dump_elem(b) != db:
         stats["dump-not-canonical"] = stats.get("dump-not-canonical", 0) + 1
         da, db = core.dump_elem(a), core.dump_elem(b)
+    if served_first:
+        # one of the two has already been serialized and printed (an uneven history must not show in equality)
+        for fn in (serialize_json, serialize_python, repr):
+            try:
+                fn(a)
+            except Exception:  # noqa: BLE001
+                pass
+        stats["one-side-serialized-first"] = stats.get("one-side-serialized-first", 0) + 1
     real = {"eq": bool(a == b), "eq_rev": bool(b == a)}
     rep = drv.ask({"op": "elem_eq", "a": da, "b": db})
     case = {"a": da, "b": db, "mutation": kind, **(extra or {})}
+    if served_first:
+        case["first_serialized_before_comparison"] = True
     out.note_case(case, kind != "identical")
     stats["pairs-" + kind] = stats.get("pairs-" + kind, 0) + 1
     stats["equal" if real["eq"] else "unequal"] = stats.get("equal" if real["eq"] else "unequal", 0) + 1
@@ -339,10 +349,10 @@ def run(ctx, scale=1.0):
             da = unique_class_names(dg.dump(3))
             values = vg.values(dump_to_schema(da), 5) + [1, True, 1.0, [True], [1], {"a": True}, {"a": 1}, 0, False]
             if i % 5 == 0:
-                check_pair(drv, da, copy.deepcopy(da), "identical", values, out, stats)
+                check_pair(drv, da, copy.deepcopy(da), "identical", values, out, stats, served_first=(i % 2 == 0))
             else:
                 db, kind = mutate(rng, da, dg)
-                check_pair(drv, da, db, kind, values, out, stats)
+                check_pair(drv, da, db, kind, values, out, stats, served_first=(i % 4 == 1))
         # compositions and tuples whose members are the same elements in another order, or repeated differently
         for i in range(int(80 * scale)):
             members = []
@@ -445,7 +455,8 @@ def _replay_case(case):
         if "inherited" in case:
             built = build_inherited(*case["inherited"])
             vals = vals + INHERITED_VALUES
-        check_pair(drv, case["a"], case["b"], case.get("mutation", "replay"), vals, out, stats, built=built)
+        check_pair(drv, case["a"], case["b"], case.get("mutation", "replay"), vals, out, stats, built=built,
+                   served_first=bool(case.get("first_serialized_before_comparison")))
     finally:
         drv.close()
     return out
